@@ -20,16 +20,17 @@ import (
 // the clock moves (to 1 ms either side of the tick and of the retry wait).
 type scHealth struct {
 	baseScn
-	hc       couchbase.HealthCheck
-	cl       *fakePingClient
-	pattern  int // success/failure pattern of the rounds, consumed bit by bit (1 = fail)
-	bit      int
-	stops    int
-	starts   int
-	stopping bool
-	stopped  bool
-	interval time.Duration
-	calls    int
+	hc        couchbase.HealthCheck
+	cl        *fakePingClient
+	quickStop bool
+	pattern   int // success/failure pattern of the rounds, consumed bit by bit (1 = fail)
+	bit       int
+	stops     int
+	starts    int
+	stopping  bool
+	stopped   bool
+	interval  time.Duration
+	calls     int
 }
 
 type fakePingClient struct {
@@ -94,6 +95,7 @@ func (s *scHealth) Configure(w *World) {
 	c, t := w.cfg, w.tape
 	s.interval = time.Duration(3001+1000*t.Draw(5, nil)) * time.Millisecond
 	s.pattern = t.Draw(1<<15, nil) // three rounds of up to five outcomes
+	s.quickStop = t.Draw(8, nil) == 0
 	c.MaxSteps = 60 + t.Draw(60, nil)
 	c.QuiesceBudget = 3 * s.interval
 	c.AdvEventMax = 7 * time.Second
@@ -108,6 +110,23 @@ func (s *scHealth) Configure(w *World) {
 }
 
 func (s *scHealth) Boot(w *World) {
+	if s.quickStop {
+		// Stop() right behind Start(), before the checker goroutine has been scheduled for the first time
+		s.calls += 2
+		w.probe("stop:before-the-checker-goroutine-ran")
+		go func() {
+			w.jl(&journal.Ev{K: journal.KCall, Vb: -1, S: "Start", ID: "h1"})
+			s.hc.Start()
+			w.jl(&journal.Ev{K: journal.KRet, Vb: -1, S: "Start", ID: "h1"})
+			w.jl(&journal.Ev{K: journal.KCall, Vb: -1, S: "Stop", ID: "h2"})
+			s.hc.Stop()
+			w.jl(&journal.Ev{K: journal.KRet, Vb: -1, S: "Stop", ID: "h2"})
+			w.poke()
+		}()
+		s.starts++
+		s.stops++
+		return
+	}
 	s.call(w, "Start", func() { s.hc.Start() })
 	s.starts++
 }
